@@ -47,6 +47,8 @@ PROFILES = {
     'raise_any': dict(raise_any=lambda ev, st: True),
     # nothing hypothetical: only explicit raises and the transaction protocol
     'plain': dict(hyp_handlers=False),
+    # one more loop unrolling: needed where a rule talks about two completed iterations
+    'plain3': dict(hyp_handlers=False, while_max=3),
 }
 
 
@@ -62,7 +64,7 @@ class Ctx:
     def opts(self, profile):
         kw = dict(PROFILES[profile])
         if self.tier == 'thorough':
-            kw.setdefault('while_max', 3)
+            kw['while_max'] = kw.get('while_max', 2) + 1
             kw.setdefault('max_depth', 8)
         return Opts(**kw)
 
